@@ -4,6 +4,7 @@
 -/
 import MitmVerif.Model.C29
 set_option linter.unusedSimpArgs false
+set_option linter.unusedVariables false
 namespace MitmVerif.C29.Lemmas
 open MitmVerif MitmVerif.C29
 
@@ -457,5 +458,259 @@ theorem full_run (st : State) (is : List Input) (h : Full st) : Full (run st is)
   induction is generalizing st with
   | nil => exact h
   | cons i is ih => exact ih _ (full_step st i h)
+
+/-! ### half-close bookkeeping across the pause queue -/
+
+/-- TCP relay: a side that can no longer be read has either its `ConnectionClosed` still waiting in the
+    queue or the half-close of the opposite connection already yielded -/
+def HInv (q : List Ev) (st : State) : Prop :=
+  st.proto = .tcp → st.phase = .relay → ∀ s, (st.conn s).canRead = false →
+    Ev.closed s ∈ q ∨ Output.close s.other true ∈ st.trace
+
+theorem hinv_setq {st : State} (q q' : List Ev) : HInv q' { st with queue := q } ↔ HInv q' st := by
+  simp [HInv, State.conn]
+
+theorem hinv_mono {q q' : List Ev} {st : State} (hm : ∀ e, e ∈ q → e ∈ q') (h : HInv q st) : HInv q' st := by
+  intro h1 h2 s hs
+  exact (h h1 h2 s hs).imp (hm _) id
+
+theorem conn_emit_read (st : State) (o : Output) (s : Side) (hne : ∀ c, o ≠ .close c false) :
+    ((emit st o).conn s).canRead = (st.conn s).canRead := by
+  cases s <;> cases o <;> simp [State.conn]
+  all_goals (rename_i c half; cases c <;> cases half <;> simp_all)
+
+theorem hinv_handle {q : List Ev} {st : State} {e : Ev} (hI : TrInv st) (h : HInv (e :: q) st)
+    (hp : st.pending = .none) : HInv q (handle st e) := by
+  unfold handle
+  split
+  · rename_i hph
+    cases e with
+    | data src d =>
+      simp only [handleData]
+      split
+      · intro h1 h2 s hs
+        have h1' : st.proto = .tcp := by simpa using h1
+        have hs' : (st.conn s).canRead = false := by
+          cases s <;> simpa [State.conn] using hs
+        rcases h h1' hph s hs' with hm | hm
+        · simp at hm; exact Or.inl hm
+        · right; simp [hm]
+      · intro h1 h2 s hs
+        have h1' : st.proto = .tcp := by simpa using h1
+        have hs' : (st.conn s).canRead = false := by
+          cases s <;> simpa [State.conn] using hs
+        rcases h h1' hph s hs' with hm | hm
+        · simp at hm; exact Or.inl hm
+        · right; simp [hm]
+    | closed s0 =>
+      simp only [handleClosed]
+      split
+      · rename_i hpr
+        split
+        · -- all done: the relay is over
+          intro h1 h2
+          exfalso
+          revert h2
+          simp only [finish]
+          split <;> split <;> split <;> simp
+        · intro h1 h2 s hs
+          have hs' : (st.conn s).canRead = false := by
+            cases s <;> cases s0 <;> simpa [State.conn, Side.other] using hs
+          rcases h hpr hph s hs' with hm | hm
+          · simp at hm
+            rcases hm with rfl | hm
+            · right; simp
+            · exact Or.inl hm
+          · right; simp [hm]
+      · rename_i hpr
+        intro h1
+        exfalso
+        revert h1
+        simp only [finish]
+        split <;> simp [hpr]
+  · intro h1 h2 s hs
+    rename_i hne
+    exact absurd h2 (by intro hh; exact hne hh)
+
+theorem hinv_drain (q : List Ev) (st : State) (h : TrInv st) (hk : KInv q st) (hh : HInv q st) :
+    HInv (drain q st).queue (drain q st) := by
+  induction q generalizing st with
+  | nil => simpa [drain, hinv_setq] using hh
+  | cons e q ih =>
+    unfold drain
+    split
+    · rename_i hp
+      exact ih _ (inv_handle h hp) (kinv_handle h hk hp) (hinv_handle h hh hp)
+    · simpa [hinv_setq] using hh
+
+theorem hinv_closed {st : State} {s : Side} {c : Conn} (h : HInv st.queue st) :
+    HInv (st.queue ++ [Ev.closed s]) (st.setConn s c) := by
+  have hf := setConn_fields st s c
+  intro h1 h2 s' hs
+  rw [hf.2.2.2.2.2.2.2.1] at h1
+  rw [hf.2.2.2.2.1] at h2
+  rw [hf.2.1]
+  by_cases e : s' = s
+  · subst e; left; simp
+  · have hs' : (st.conn s').canRead = false := by
+      cases s' <;> cases s <;> simp_all [State.conn, State.setConn]
+    exact (h h1 h2 s' hs').imp (fun hm => List.mem_append_left _ hm) id
+
+theorem hinv_deliver (st : State) (ev : Ev) (hI : TrInv st) (hK : KInv (st.queue ++ [ev]) st)
+    (hH : HInv (st.queue ++ [ev]) st) (hQ : QInv st) : HInv (deliver st ev).queue (deliver st ev) := by
+  unfold deliver
+  split
+  · rename_i hp
+    have hq : st.queue = [] := hQ hp
+    rw [hq] at hH
+    rw [handle_queue, hq]
+    exact hinv_handle hI hH hp
+  · simpa [hinv_setq] using hH
+
+def Full2 (st : State) : Prop := Full st ∧ HInv st.queue st
+
+theorem full2_step (st : State) (i : Input) (h : Full2 st) : Full2 (step st i) := by
+  obtain ⟨hF, hH⟩ := h
+  refine ⟨full_step st i hF, ?_⟩
+  obtain ⟨hI, hK, hQ⟩ := hF
+  unfold step
+  split
+  · rename_i hph
+    have hk1 := hK.2.1 hph
+    cases i with
+    | start =>
+      simp only
+      split
+      · intro h1 h2; simp at h2
+      · unfold enterRelayOrConnect
+        split
+        · intro h1 h2 s hs
+          exfalso
+          rename_i hc
+          cases s <;> simp_all [State.conn]
+        · intro h1 h2; simp at h2
+    | _ => exact hH
+  · rename_i hph
+    have hph' : st.phase ≠ .idle := by intro h; exact hph h
+    cases i with
+    | start => exact hH
+    | data src d =>
+      exact hinv_deliver st _ hI (kinv_mono (fun e he => List.mem_append_left _ he) hK)
+        (hinv_mono (fun e he => List.mem_append_left _ he) hH) hQ
+    | inject fc d =>
+      exact hinv_deliver st _ hI (kinv_mono (fun e he => List.mem_append_left _ he) hK)
+        (hinv_mono (fun e he => List.mem_append_left _ he) hH) hQ
+    | closed s full =>
+      simp only
+      have hc : (if full = true then Conn.shut else { st.conn s with canRead := false }).canRead = false := by
+        split <;> rfl
+      have h1 := inv_setConn (s := s) hc hI
+      have h2 := kinv_closed (s := s) (c := if full = true then Conn.shut else { st.conn s with canRead := false }) hph' hK
+      have h3 := hinv_closed (s := s) (c := if full = true then Conn.shut else { st.conn s with canRead := false }) hH
+      have hq : (st.setConn s (if full = true then Conn.shut else { st.conn s with canRead := false })).queue = st.queue :=
+        (setConn_fields _ _ _).2.2.2.2.2.1
+      refine hinv_deliver _ _ h1 (by rw [hq]; exact h2) (by rw [hq]; exact h3) ?_
+      intro hp; rw [hq]; exact hQ (by simpa [(setConn_fields _ _ _).2.2.2.1] using hp)
+    | hookDone edit =>
+      simp only
+      split
+      · -- startHook
+        rename_i hp
+        have hks := hK.2.2.1
+        refine hinv_drain _ _ ?_ ?_ ?_
+        · unfold enterRelayOrConnect; split <;> inv_tac hI hK
+        · unfold enterRelayOrConnect; split <;> inv_tac hI hK <;> grind
+        · unfold enterRelayOrConnect
+          split
+          · rename_i hc
+            intro h1 h2 s hs
+            left
+            have hst : st.phase = .start := by
+              have := hI; unfold TrInv at this
+              obtain ⟨-, -, -, -, h5, -⟩ := this; exact (h5 hp).1
+            obtain ⟨k1, k2⟩ := hks hst
+            cases s
+            · have : st.client.canRead = false := by simpa [State.conn] using hs
+              rcases k1 with k1 | k1
+              · simp [this] at k1
+              · exact k1
+            · have : st.server.canRead = false := by simpa [State.conn] using hs
+              rcases k2 hc with k2 | k2
+              · simp [this] at k2
+              · exact k2
+          · intro h1 h2
+            have hst : st.phase = .start := by
+              have := hI; unfold TrInv at this
+              obtain ⟨-, -, -, -, h5, -⟩ := this; exact (h5 hp).1
+            simp [hst] at h2
+      · -- errorHook
+        rename_i hp
+        refine hinv_drain _ _ ?_ ?_ ?_
+        · unfold afterError; inv_tac hI hK
+        · unfold afterError; inv_tac hI hK
+        · intro h1 h2; simp [afterError] at h2
+      · -- msgHook
+        rename_i to m hp
+        refine hinv_drain _ _ ?_ ?_ ?_
+        · inv_tac hI hK
+          intro s
+          rw [recorded_snoc]
+          cases to <;> cases s <;> simp_all
+        · inv_tac hI hK
+        · intro h1 h2 s hs
+          have h1' : st.proto = .tcp := by simpa using h1
+          have h2' : st.phase = .relay := by simpa using h2
+          have hs' : (st.conn s).canRead = false := by cases s <;> simpa [State.conn] using hs
+          rcases hH h1' h2' s hs' with hm | hm
+          · exact Or.inl hm
+          · right; simp [hm]
+      · -- endHook
+        rename_i hp
+        refine hinv_drain _ _ ?_ ?_ ?_
+        · inv_tac hI hK
+        · inv_tac hI hK
+        · intro h1 h2
+          have : st.phase = .done := by
+            have := hI; unfold TrInv at this
+            obtain ⟨-, -, -, -, -, -, -, h8, -⟩ := this; exact (h8 hp).1
+          simp [this] at h2
+      · exact hH
+    | connectDone err =>
+      simp only
+      split
+      · rename_i hp
+        have hst : st.phase = .start := by
+          have := hI; unfold TrInv at this
+          obtain ⟨-, -, -, -, -, h6, -⟩ := this; exact (h6 hp).1
+        split
+        · split
+          · intro h1 h2; simp [hst] at h2
+          · refine hinv_drain _ _ ?_ ?_ ?_
+            · unfold afterError; inv_tac hI hK
+            · unfold afterError; inv_tac hI hK
+            · intro h1 h2; simp [afterError] at h2
+        · refine hinv_drain _ _ ?_ ?_ ?_
+          · inv_tac hI hK
+          · inv_tac hI hK
+          · intro h1 h2 s hs
+            left
+            obtain ⟨k1, -⟩ := hK.2.2.1 hst
+            cases s
+            · have : st.client.canRead = false := by simpa [State.conn] using hs
+              rcases k1 with k1 | k1
+              · simp [this] at k1
+              · exact k1
+            · have hr := hK.1
+              have : st.connectAs.canRead = false := by simpa [State.conn] using hs
+              simp [this] at hr
+      · exact hH
+
+theorem full2_init (p : Proto) (f c : Bool) : Full2 (init p f c) :=
+  ⟨full_init p f c, by intro h1 h2; simp [init] at h2⟩
+
+theorem full2_run (st : State) (is : List Input) (h : Full2 st) : Full2 (run st is) := by
+  induction is generalizing st with
+  | nil => exact h
+  | cons i is ih => exact ih _ (full2_step st i h)
 
 end MitmVerif.C29.Lemmas
